@@ -16,6 +16,9 @@ claimed = {
  "C03": dict(
    text="Algebraic slot model: the real key generator, encryptor (secret-key / public-key, with and without P, NTT and coefficient-domain parameter sets, every level) and decryptor are executed from SSA with every plaintext, key, mask and error coefficient a free element of Z_q (atom); Dec(Enc(pt))-pt must reduce to error/rounding atoms only, every coefficient must carry a fresh error atom, metadata must be copied, decryption under an independent key must keep the uniform mask. The final polynomial identities are decided by the SMT solver over free monomial variables. Numeric noise bounds / empirical sigma are outside (statistical).",
    ref="DESIGN.md §6-C03, §4.3", technique="SSA symbolic execution in the algebraic slot model (field elements over atoms, kernel contracts from C01) + SMT (LIA) on the normalised identities"),
+ "C04": dict(
+   text="Algebraic slot model: real genEvaluationKey / AddPolyTimesGadgetVector, GadgetProduct (RNS digits with 0, 1 or several auxiliary primes; power-of-two digits of several widths incl. primes just above a power of two), ModDown and ApplyEvaluationKey executed from SSA with all ciphertext, key, mask and error coefficients free atoms; Dec_{s_out}(out) - Dec_{s_in}(in) must reduce to error/rounding terms for every key parameterisation of the harness (key LevelQ/LevelP below maximum, ciphertext level below key level, NTT and coefficient domain). Digits enter through contracts (RNS digit = input on its own limbs; power-of-two digits recombine over all digits needed to cover the bit length). Ring-degree switching / ring packing and numeric noise bounds are outside.",
+   ref="DESIGN.md §6-C04, §4.3", technique="SSA symbolic execution in the algebraic slot model + SMT (LIA) on the normalised identities; native replay on realistic-size primes"),
  "C08": dict(
    text="Stream-level symbolic execution of the real (de)serialisation code (ring.Poly through structs.Matrix/Vector and utils/buffer): round trip with all payload words symbolic through WriteTo/ReadFrom and MarshalBinary/UnmarshalBinary into fresh and reused receivers, announced size, every truncation point, corrupted length fields (classes small / negative / huge) with the allocation obligation on every symbolic make.",
    ref="DESIGN.md §6-C08", technique="SSA symbolic execution of the codecs over symbolic byte streams + SMT (BV); path forking on stream-dependent branches; native replay"),
